@@ -9,11 +9,11 @@ use crate::util::{par_map, Kv};
 
 pub fn meta(ctx: &Ctx) -> Meta {
     Meta {
-        rule: format!("single layers: FULL lattice L (kernel 1-3 x stride 1-2(3 for pool) x padding 0-2 x dilation 1-2 x channels 1-2 x filters 1-3 x planes {{1,2,3,4,5,6}}x{{1,2,3,4,5,7}}, rectangular and asymmetric included) for convolution, deconvolution, max-pool with linear activation on pairwise-distinct integer data{} (the ring also on {{-1,0,1}} data with ties and on generic non-dyadic floats), both input representations (flat vector / CxHxW, must be bit-identical); ring of <= {} deviations x E5 x dyadic data; dense n,m in 1..4 x E5+softmax x bias; a LARGE-VALUE ring (kernel 5,7; stride 3,4; padding 3; dilation 3; 4,8 channels; 8,16 filters; planes 12x13, 28x32) walked with <= 1 (thorough 2) deviations; wide dense layers (33, 64, 65, 100, 257); one 6-layer network; networks: every sequence of <= {} layers from {{dense,conv,deconv,pool,feedback}} over 5 input shapes with <= {} configuration deviations that the reference accepts. Oracle: definitional reference forward, pre- and post-activation of every layer. Non-trivial = case whose reference output has >= 2 distinct non-zero entries",
+        rule: format!("single layers: FULL lattice L (kernel 1-3 x stride 1-2(3 for pool) x padding 0-2 x dilation 1-2 x channels 1-2 x filters 1-3 x planes {{1,2,3,4,5,6}}x{{1,2,3,4,5,7}}, rectangular and asymmetric included) for convolution, deconvolution, max-pool with linear activation on pairwise-distinct integer data{} (the ring also on {{-1,0,1}} data with ties and on generic non-dyadic floats), both input representations (flat vector / CxHxW, must be bit-identical); ring of <= {} deviations x E5 x dyadic data; dense n,m in 1..4 x E5+softmax x bias; a LARGE-VALUE ring (kernel 5,7; stride 3,4; padding 3; dilation 3; 4,8 channels; 8,16 filters; planes 12x13, 28x32) walked with <= 1 (thorough 2) deviations; HEAVY layers (3 channels, 8 filters, 24x30 plane: >= 64k multiply-adds) x <= 1 (thorough 2) deviations of kernel / stride / padding / dilation per axis over the large-value domains; the ring also on subnormal data; wide dense layers (33, 64, 65, 100, 257); one 6-layer network; networks: every sequence of <= {} layers from {{dense,conv,deconv,pool,feedback}} over 5 input shapes with <= {} configuration deviations that the reference accepts. Oracle: definitional reference forward, pre- and post-activation of every layer. Non-trivial = case whose reference output has >= 2 distinct non-zero entries",
             if ctx.tier.thorough() { " and dyadic data, and ReLU" } else { "" }, if ctx.tier.thorough() { 3 } else { 2 }, 3, if ctx.tier.thorough() { 2 } else { 1 }),
         bound: "kernel <= 3, stride <= 2 (3 pool), padding <= 2, dilation <= 2, planes <= 6x7, depth <= 3".into(),
         exhaustive: true,
-        assumptions: vec!["comparison tolerance 2e-6 * max|reference| per tensor for linear/ReLU networks and 1e-4 * max|reference| when a leaky ReLU, sigmoid, tanh or soft-max is present (bit-exact agreement is counted separately); flat-vs-CxHxW differential is bit-exact".into()],
+        assumptions: vec!["comparison tolerance per tensor: 2e-6 (2e-5 on generic floats, 1e-4 when a leaky ReLU, sigmoid, tanh or soft-max is present) x max(max|reference|, min(1, largest magnitude that flowed in)) + 64 x the movement of the exact tensor when every datum is perturbed by one single-precision rounding + 64 quanta of 2^-149 (bit-exact agreement is counted separately); flat-vs-CxHxW differential is bit-exact".into()],
     }
 }
 
@@ -245,6 +245,13 @@ pub fn check(ctx_seed: u64, case: &Kv, rep: &mut Report) {
             let net = Net::new(input, vec![l]);
             check_net(&net, val, case.bool("flat"), ctx_seed, case, rep);
         }
+        "heavy" => {
+            let kind = kind_parse(case.get("layer"));
+            let ix: Vec<usize> = case.list("ix").iter().map(|s| s.parse().unwrap()).collect();
+            let (input, l) = heavy_point(kind, &ix, Act::parse(case.get("act"))).expect("invalid heavy lattice point in case");
+            let net = Net::new(input, vec![l]);
+            check_net(&net, val, case.bool("flat"), ctx_seed, case, rep);
+        }
         _ => {
             let net = Net::parse(case.get("net"));
             check_net(&net, val, case.bool("flat"), ctx_seed, case, rep);
@@ -307,6 +314,17 @@ pub fn cases(ctx: &Ctx) -> Vec<Kv> {
             }
             let act = if ix.iter().sum::<usize>() % 2 == 0 { "linear" } else { "relu" };
             out.push(Kv::new().put("kind", "xlattice").put("layer", kind_name(kind)).put("ix", ixs(&ix)).put("act", act).put("val", "dyadic").put("flat", (ix.iter().sum::<usize>() % 3 == 0) as u8));
+        }
+    }
+    // heavy layers (3 channels, 8 filters, 24x30: 64k multiply-adds and more) x one (thorough: two) geometry deviations
+    for kind in [Kind::Conv, Kind::Deconv, Kind::Pool] {
+        let doms = heavy_domains(kind);
+        for ix in deviations(&doms, if thorough { 2 } else { 1 }) {
+            if heavy_point(kind, &ix, Act::Linear).is_none() {
+                continue;
+            }
+            let act = if ix.iter().sum::<usize>() % 2 == 0 { "linear" } else { "relu" };
+            out.push(Kv::new().put("kind", "heavy").put("layer", kind_name(kind)).put("ix", ixs(&ix)).put("act", act).put("val", "dyadic").put("flat", (ix.iter().sum::<usize>() % 3 == 0) as u8));
         }
     }
     // wide dense layers (beyond any small unrolling / blocking factor)
